@@ -117,11 +117,13 @@ impl Sphere {
         Self { center, radius }
     }
 
-    /// Create the smallest sphere through 2, 3 or 4 boundary points.
-    /// When 0 or 1 points are given, an empty sphere is returned.
+    /// Create the smallest sphere through 1, 2, 3 or 4 boundary points.
+    /// When no points are given, an empty sphere is returned; a single point gives the sphere of
+    /// radius zero around that point.
     pub fn from_boundary_points(points: &[DVec3]) -> Self {
         match points.len() {
-            0 | 1 => Self::EMPTY,
+            0 => Self::EMPTY,
+            1 => Self::new(points[0], 0.),
             2 => Self::from_two_points(points[0], points[1]),
             3 => Self::from_three_points(points[0], points[1], points[2]),
             4 => Self::from_four_points(points[0], points[1], points[2], points[3]),
@@ -201,9 +203,14 @@ impl Sphere {
     /// Extend this sphere to include `x`, if necessary.
     pub fn extend(mut self, x: DVec3) -> Self {
         if !self.contains(x) {
-            let opposite = self.center - self.radius * (x - self.center).normalize();
-            self.center = 0.5 * (opposite + x);
-            self.radius = self.center.distance(x);
+            let dx = x - self.center;
+            let distance = dx.length();
+            // a sphere of radius zero does not `contain` its own centre, but needs no extension for it
+            if distance > 0. {
+                let opposite = self.center - self.radius * dx / distance;
+                self.center = 0.5 * (opposite + x);
+                self.radius = self.center.distance(x);
+            }
         }
         self
     }
